@@ -2,5 +2,5 @@ CONSTANTS
   N = 4
   Defects = {}
 SPECIFICATION Spec
-INVARIANTS CountedRight NoSpuriousTimeout
+INVARIANTS OneResultPerCheck NoCheckLost CountedRight
 CHECK_DEADLOCK FALSE
